@@ -465,6 +465,43 @@ def gen_copy_heavy(rng):
     return ops
 
 
+def gen_arc_copy(rng):
+    """one or two arcs far from their images, selected in arc mode, then copied / mirrored / moved: the image must be
+    the transformed arc (end points and bulge)"""
+    ops = []
+    arcs = []
+    x = 0.0
+    for _ in range(rng.randint(1, 2)):
+        a = (x, float(rng.choice([0, 1]))); b = (x + float(rng.choice([1, 2])), float(rng.choice([0, 1, 2])))
+        ang = float(rng.choice([30, 60, 90, 120, 180]))
+        ops += [("addnode",) + a, ("addnode",) + b, ("addarc",) + a + b + (ang, float(rng.choice([1, 5, 10])))]
+        arcs.append((a, b, ang))
+        x += 4.0
+    import math, cmath
+    for (a, b, ang) in arcs:
+        # a point on the arc: select by its mid point
+        a0, a1 = complex(*a), complex(*b)
+        d = abs(a1 - a0); t = (a1 - a0) / d; tta = math.radians(ang)
+        R = d / (2 * math.sin(tta / 2)); c = a0 + (d / 2 + 1j * math.sqrt(max(R * R - d * d / 4, 0.0))) * t
+        m = c + (a0 - c) * cmath.exp(1j * tta / 2)
+        ops.append(("selectarc", m.real, m.imag))
+    which = rng.choice(["mirror", "mirror", "copytranslate", "copyrotate", "movetranslate", "moverotate", "scale"])
+    if which == "mirror":
+        ax = rng.choice([(-3.0, -1.0, -3.0, 2.0), (0.0, -4.0, 1.0, -4.0), (-3.0, 0.0, -5.0, 2.0)])
+        ops.append(("mirror",) + ax + (3,))
+    elif which == "copytranslate":
+        ops.append(("copytranslate", 0.0, rng.choice([10.0, -7.5]), rng.randint(1, 3), 3))
+    elif which == "copyrotate":
+        ops.append(("copyrotate", -20.0, -20.0, rng.choice([25.0, 40.0]), rng.randint(1, 3), 3))
+    elif which == "movetranslate":
+        ops.append(("movetranslate", rng.choice([3.0, -2.5]), rng.choice([10.0, 0.5]), 3))
+    elif which == "moverotate":
+        ops.append(("moverotate", -20.0, -20.0, rng.choice([25.0, 90.0]), 3))
+    else:
+        ops.append(("scale", -10.0, -10.0, rng.choice([0.5, 2.0]), 3))
+    return ops
+
+
 # known defects of the working tree, as deterministic probes (each is reported with its signature)
 PROBE_F1 = [("addnode", 0.0, 0.0), ("addnode", 1.0, 0.0), ("addsegment", 0.0, 0.0, 1.0, 0.0),
             ("selectsegment", 0.5, 0.0), ("selectnode", 0.0, 0.0), ("deleteselectednodes",)]
@@ -616,6 +653,7 @@ def correspond(ctx):
         else:
             cases.append(gen_seq(rng, rng.randint(8, 24), arcs=True))
     cases += [gen_props_copy(rng) for _ in range(24 if ctx.quick() else 400)]
+    cases += [gen_arc_copy(rng) for _ in range(16 if ctx.quick() else 200)]
     cases = list(enumerate(cases))
     dis += check_cases(ctx, exe, cases, stats)
     # the naive global snap-tolerance claim (C16_snap_tolerance_global_refuted) replayed on the real code
